@@ -12,11 +12,11 @@ Definition op_nref (o:op) : nref :=
   | OpDropColumn t c | OpAlterColumn t c _ _ _ _ _ _ => NColumn t c
   | OpAddCons t k => kref t k
   | OpDropCons t ix n => if ix then NIx t n else NUq t n
-  | OpAddFk t f => NFk t (f_name f)
-  | OpDropFk t n => NFk t n
+  | OpAddFk t f => fkref t f
+  | OpDropFk t n named => if named then NFk t n else NFkU t
   end.
 Definition drops_or_alters (o:op) : bool :=
-  match o with OpDropTable _ | OpDropColumn _ _ | OpAlterColumn _ _ _ _ _ _ _ _ | OpDropCons _ _ _ | OpDropFk _ _ => true | _ => false end.
+  match o with OpDropTable _ | OpDropColumn _ _ | OpAlterColumn _ _ _ _ _ _ _ _ | OpDropCons _ _ _ | OpDropFk _ _ _ => true | _ => false end.
 
 Definition lk_col (S:schema) (t n:N) : option col :=
   match kfind t_name t S with Some tb => kfind c_name n (t_cols tb) | None => None end.
@@ -48,7 +48,7 @@ Section Acc.
      rejected (it is then treated as absent and the metadata key is reported as added) *)
   Definition fk_twin_ok (conn:schema) (o:op) : bool :=
     match o with
-    | OpAddFk tn mf => forallb (fun cf => implb (fk_sig_eqb mf cf) (iname (NFk tn (f_name cf)))) (lk_fks conn tn)
+    | OpAddFk tn mf => forallb (fun cf => implb (fk_sig_eqb mf cf) (iname (fkref tn cf))) (lk_fks conn tn)
     | _ => true
     end.
   Definition table_guard (conn meta:schema) (tn:N) : bool :=
@@ -78,10 +78,10 @@ Section Acc.
                                   else io (OCons tn ck) true None
                      | None => io (OCons tn ck) true None end
         | None => true end
-    | OpAddFk tn mf => io (OFk tn mf) false (option_map (OFk tn) (lk_fk conn tn (f_name mf)))
-    | OpDropFk tn n =>
+    | OpAddFk tn mf => io (OFk tn mf) false (option_map (OFk tn) (fk_by_name mf (lk_fks conn tn)))
+    | OpDropFk tn n _ =>
         match lk_fk conn tn n with
-        | Some cf => io (OFk tn cf) true (option_map (OFk tn) (lk_fk meta tn n))
+        | Some cf => io (OFk tn cf) true (option_map (OFk tn) (fk_by_name cf (lk_fks meta tn)))
         | None => true end
     end.
   Definition acc (conn meta:schema) (o:op) : bool :=
@@ -94,6 +94,7 @@ Definition nref_eqb (a b:nref) : bool :=
   | NSchema, NSchema => true
   | NTable t, NTable t' => N.eqb t t'
   | NColumn t c, NColumn t' c' | NUq t c, NUq t' c' | NIx t c, NIx t' c' | NFk t c, NFk t' c' => N.eqb t t' && N.eqb c c'
+  | NFkU t, NFkU t' => N.eqb t t'
   | _, _ => false
   end.
 Definition okey : Type := nref * bool * bool.       (* object, reflected, compare_to is not None *)
@@ -101,9 +102,30 @@ Definition okey_eqb (a b:okey) : bool :=
   nref_eqb (fst (fst a)) (fst (fst b)) && Bool.eqb (snd (fst a)) (snd (fst b)) && Bool.eqb (snd a) (snd b).
 Fixpoint assoc {K} (e:K->K->bool) (k:K) (l:list (K*bool)) (d:bool) : bool :=
   match l with [] => d | (k',v) :: r => if e k k' then v else assoc e k r d end.
-Record filt := mkFilt { fl_obj : list (okey*bool); fl_obj_d : bool; fl_name : list (nref*bool); fl_name_d : bool }.
+(* content rules: predicates that look INSIDE the object they are handed (and inside compare_to) *)
+Inductive rule :=
+| RTabHasCol (c:N)        (* reject a table that has a column named c *)
+| RReflTabHasIx           (* reject a reflected table that has an index *)
+| RTabHasFk               (* reject a table that has a foreign key *)
+| RColFam (fam:N)         (* reject a column whose type family is fam *)
+| RConsOnCol (c:N)        (* reject an index / unique constraint over column c *)
+| RFkTo (t:N)             (* reject a foreign key that refers to table t *)
+| RCmpTabHasCol (c:N).    (* reject when compare_to is a table with a column named c *)
+Definition tab_has_col (c:N) (o:obj) : bool := match o with OTable t => memN c (keys c_name (t_cols t)) | _ => false end.
+Definition rule_rejects (r:rule) (ob:obj) (refl:bool) (cmp:option obj) : bool :=
+  match r with
+  | RTabHasCol c => tab_has_col c ob
+  | RReflTabHasIx => refl && match ob with OTable t => existsb is_ix (t_cons t) | _ => false end
+  | RTabHasFk => match ob with OTable t => negb (is_nil (t_fks t)) | _ => false end
+  | RColFam fam => match ob with OColumn _ c => N.eqb (ty_fam (c_ty c)) fam | _ => false end
+  | RConsOnCol c => match ob with OCons _ k => memN c (k_cols k) | _ => false end
+  | RFkTo t => match ob with OFk _ f => N.eqb (f_rtable f) t | _ => false end
+  | RCmpTabHasCol c => match cmp with Some o => tab_has_col c o | None => false end
+  end.
+Record filt := mkFilt { fl_obj : list (okey*bool); fl_obj_d : bool; fl_name : list (nref*bool); fl_name_d : bool; fl_rules : list rule }.
 Definition io_of (f:filt) : obj -> bool -> option obj -> bool :=
-  fun ob refl cmp => assoc okey_eqb (obj_ref ob, refl, has_cmp cmp) (fl_obj f) (fl_obj_d f).
+  fun ob refl cmp => assoc okey_eqb (obj_ref ob, refl, has_cmp cmp) (fl_obj f) (fl_obj_d f)
+                     && negb (existsb (fun r => rule_rejects r ob refl cmp) (fl_rules f)).
 Definition iname_of (f:filt) : nref -> bool := fun r => assoc nref_eqb r (fl_name f) (fl_name_d f).
 
 (* ---------------------------------------------------------------- one case *)
@@ -126,12 +148,23 @@ Definition C20_holds (i:c20_in) (out:c20_out) : Prop :=
   object_filter_ok (io_of f) (o_filtered out) /\ name_filter_ok (iname_of f) (o_filtered out) /\
   conservativeb (acc (io_of f) (iname_of f) (reflect_sqlite A) B) (o_filtered out) (o_plain out) = true.
 
-(* decider: for table-defined predicates "some call about r said yes" is a finite search *)
-Definition obj_acceptedb (f:filt) (r:nref) : bool :=
-  existsb (fun rc => assoc okey_eqb (r, fst rc, snd rc) (fl_obj f) (fl_obj_d f)) [(true,true);(true,false);(false,true);(false,false)].
+(* decider: "an include_object call about r said yes", searched among the calls that can really be made: the object is the
+   reflected or the metadata object of that name, compare_to is absent or the counterpart *)
+Definition objs_of (S:schema) (r:nref) : list obj :=
+  match r with
+  | NSchema => []
+  | NTable t => match kfind t_name t S with Some tb => [OTable tb] | None => [] end
+  | NColumn t c => match lk_col S t c with Some x => [OColumn t x] | None => [] end
+  | NUq t n | NIx t n => match lk_cons S t n with Some k => if nref_eqb (kref t k) r then [OCons t k] else [] | None => [] end
+  | NFk t n => match lk_fk S t n with Some x => if f_named x then [OFk t x] else [] | None => [] end
+  | NFkU t => map (OFk t) (filter (fun f => negb (f_named f)) (lk_fks S t))
+  end.
+Definition obj_acceptedb (f:filt) (conn meta:schema) (r:nref) : bool :=
+  let cands := objs_of conn r ++ objs_of meta r in
+  existsb (fun ob => existsb (fun refl => existsb (fun cmp => io_of f ob refl cmp) (None :: map Some cands)) [true; false]) cands.
 Definition check_C20 (i:c20_in) (out:c20_out) : bool :=
   let '(A, B, f) := i in
-  forallb (fun o => obj_acceptedb f (op_nref o) && obj_acceptedb f (NTable (op_table o))) (o_filtered out)
+  forallb (fun o => obj_acceptedb f (reflect_sqlite A) B (op_nref o) && obj_acceptedb f (reflect_sqlite A) B (NTable (op_table o))) (o_filtered out)
   && forallb (fun o => implb (drops_or_alters o)
                          (iname_of f NSchema && iname_of f (NTable (op_table o)) && iname_of f (op_nref o))) (o_filtered out)
   && conservativeb (acc (io_of f) (iname_of f) (reflect_sqlite A) B) (o_filtered out) (o_plain out).
@@ -139,10 +172,10 @@ Definition check_C20 (i:c20_in) (out:c20_out) : bool :=
 Definition tcall_eqb (a b:tcall) : bool :=
   match a, b with
   | TN r, TN r' => nref_eqb r r'
-  | TO r x y, TO r' x' y' => nref_eqb r r' && Bool.eqb x x' && Bool.eqb y y'
+  | TO r x y d c, TO r' x' y' d' c' => nref_eqb r r' && Bool.eqb x x' && Bool.eqb y y' && list_eqb N.eqb d d' && list_eqb N.eqb c c'
   | _, _ => false
   end.
 Definition corr_C20 (i:c20_in) (out:c20_out) : bool :=
   let m := model_C20 i in
   ops_equiv (o_filtered m) (o_filtered out) && ops_equiv (o_plain m) (o_plain out) && mset_eqb tcall_eqb (o_calls m) (o_calls out).
-Definition inclass_C20 (i:c20_in) : bool := inclass_C06 (fst i).
+Definition inclass_C20 (i:c20_in) : bool := inclass_C06_core (fst i).    (* unnamed foreign keys allowed *)
